@@ -268,6 +268,20 @@ package account
 //@   ensures [query] forall k string :: old(has(ao.cachedStorage, k)) ==> has(ao.cachedStorage, k) && ao.cachedStorage[k] == old(ao.cachedStorage[k])
 //@   modifies ao.trie, ao.dbErr, entries(ao.cachedStorage)
 
+// The registry of account objects is a sync.Map, i.e. untyped: this package keys it by address VALUES, and a
+// Delete with any other kind of key (a pointer to an address, say) silently removes nothing. Undoing the creation
+// of an account (C04, C12: a failed frame that created an account leaves no account behind) must delete by value.
+//@ func ext_registryDelete
+//@   option trusted extern=(*sync.Map).Delete in=storage/account
+//@   requires [keytype] istype(arg1, common.Address)
+//@   modifies ghost(acct)
+
+//@ func createObjectChange.undo
+//@   property C04 C12
+//@   requires s != nil && ch.account != nil && s.accountObjectsDirty != nil
+//@   ensures [undirty] !has(s.accountObjectsDirty, old(*ch.account))
+//@   modifies ghost(acct), entries(s.accountObjectsDirty)
+
 // SetData journals the previous content of the slot (what GetData answers) unless the write changes nothing.
 //@ func accountObject.SetData
 //@   property C04
